@@ -6,7 +6,7 @@ plus a bystander subtree; one operation with arbitrary arguments is applied and 
 from typing import Optional, List
 
 from metapype.model.node import Node, Shift
-from harness.hlib import SHAPES, build, nodes, snap, snap_links, count, part, bound
+from harness.hlib import fresh, SHAPES, build, nodes, snap, snap_links, count, part, bound
 
 K = part(3) % 10          # edit harnesses: number of children in the pre-state
 # query harnesses: part = shape*100 + start*10 + plen
@@ -17,7 +17,7 @@ PLEN = part(3) % 10
 
 def _pre(flags):
     """parent 'P' with K children named a/b, each child has one grandchild; bystander tree 'B'."""
-    Node.store.clear()
+    fresh()
     P = Node("P", id="P")
     kids = []
     for i in range(K):
@@ -28,7 +28,38 @@ def _pre(flags):
         kids.append(c)
     B = Node("B", id="B")
     B.add_child(Node("x", id="Bx"))
+    _queries(P, list(kids), "before the edit")        # queries issued before an edit must not influence what they answer after it
     return P, kids, B
+
+
+def _queries(P, model, what):
+    for nm in ("a", "b", "g", "zz"):
+        exp = [c for c in model if c.name == nm]
+        got = P.find_child(nm)
+        if got is not (exp[0] if exp else None):
+            return "%s: find_child(%r) returned %r, the ordered tree says %r" % (what, nm, getattr(got, "id", None), exp[0].id if exp else None)
+        if [c.id for c in P.find_all_children(nm)] != [c.id for c in exp]:
+            return "%s: find_all_children(%r) wrong" % (what, nm)
+        one = P.find_single_node_by_path([nm])
+        if one is not (exp[0] if exp else None):
+            return "%s: find_single_node_by_path([%r]) returned %r" % (what, nm, getattr(one, "id", None))
+    desc = []
+    for c in model:
+        desc.append(c)
+        desc.extend(c.children)
+    for nm in ("a", "g"):
+        exp = [d for d in desc if d.name == nm]
+        got = P.find_descendant(nm)
+        if got is not (exp[0] if exp else None):
+            return "%s: find_descendant(%r) returned %r, first in document order is %r" % (what, nm, getattr(got, "id", None), exp[0].id if exp else None)
+        acc = []
+        P.find_all_descendants(nm, acc)
+        if [d.id for d in acc] != [d.id for d in exp]:
+            return "%s: find_all_descendants(%r) wrong" % (what, nm)
+    for i, c in enumerate(model):
+        if P.child_index(c) != i:
+            return "%s: child_index(%s) = %r, expected %d" % (what, c.id, P.child_index(c), i)
+    return ""
 
 
 def _check(P, model, B, bsnap, what):
@@ -42,6 +73,9 @@ def _check(P, model, B, bsnap, what):
         return "%s: a node is listed twice" % what
     if snap(B) != bsnap or snap_links(B):
         return "%s: bystander tree changed" % what
+    q = _queries(P, model, "after " + what)
+    if q:
+        return q
     for c in P.children:
         if c.id.startswith("c") and [g.id for g in c.children] != ["g" + c.id[1:]]:
             return "%s: grandchildren of %s changed" % (what, c.id)
@@ -187,7 +221,7 @@ def _doc_order(root):
 
 
 def _setup(n0, n1, n2, n3, n4):
-    Node.store.clear()
+    fresh()
     shape = SHAPES[SH]
     names = [NAMES[x] for x in (n0, n1, n2, n3, n4)]
     root = build(shape, "n", rich=False, names=names)
